@@ -153,3 +153,45 @@ ALL = [
     (SECOND_REAL, "functions", "IndexableFunction.__valid_second_index", None),
     (SECOND_SLICE, "functions", "IndexableFunction.__valid_second_index", None),
 ]
+
+
+# ---- heavy.Operations.degree_increase_bezier_once ------------------------------------------------
+def h_np_zeros_any(eng, st, args, kw, node, exits):
+    """np.zeros(n) -> list of zeros; np.zeros((r, c)) -> r x c zero matrix (dtype ignored: entries are exact numbers, A1)."""
+    a = args[0]
+    if isinstance(a, Tup) and len(a.items) == 2:
+        return E.zero_mat(a.items[0].z, a.items[1].z)
+    return h_np_zeros(eng, st, args, kw, node, exits)
+
+
+def h_totuple_any(eng, st, args, kw, node, exits):
+    v = args[0]
+    if isinstance(v, E.Mat):
+        return v
+    return Seq(v.arr, v.n, False)
+
+
+def bez_closed(se, r, c):
+    p = se.st.env["p"].z
+    q = z3.ToReal(r.z) / z3.ToReal(p + 1)
+    return Num(z3.If(c.z == r.z - 1, q, z3.If(c.z == r.z, 1 - q, z3.RealVal(0))), False)
+
+
+BEZIER_ONCE = Contract(
+    "heavy.Operations.degree_increase_bezier_once",
+    params={"knotvector": "obj:ImmutableKnotVector"},
+    setup=lambda eng, st: setup_self(eng, st) or st.env.__setitem__("knotvector", st.env["self"]),
+    spec={"bez": bez_closed},
+    ensures=["all(all(result[r, c] == bez(r, c) for c in range(p + 1)) for r in range(p + 2))"],
+    raises={},
+    loops={0: dict(invariant=["1 <= it0 and it0 <= degree + 1", "degree == p", "one == 1",
+                              "all(all(matrix[r, c] == bez(r, c) for c in range(p + 1)) for r in range(it0))",
+                              "all(all(matrix[r, c] == 0 for c in range(p + 1)) for r in range(it0, p + 2))"],
+                   decreases="degree + 1 - it0")},
+    calls=dict(KV_CALLS, **{"func:ImmutableKnotVector": CallSpec(h_ctor_identity), "static:np.zeros": CallSpec(h_np_zeros_any),
+                            "func:totuple": CallSpec(h_totuple_any)}),
+    consts={"np": E.Const(("module", "np"))},
+    canary="result[1, 1] == 0",
+)
+
+ALL.append((BEZIER_ONCE, "heavy", "Operations.degree_increase_bezier_once", None))
